@@ -679,7 +679,7 @@ Proof.
       * split; [|discriminate]. apply Kp_upd; auto. split.
         -- unfold shp. cbn [set_alts k_elim k_alts]. exists l2. split; [apply Gl2|split; [reflexivity|apply Gl2]].
         -- intros r R. cbn [set_alts k_ref] in R.
-           rewrite (Rr _ (fun y => eq_refl) r0 r R00 R). clear R r.
+           assert (Er : r = r0) by (eapply Rr; cycle 1; [exact R00|exact R|intros y; reflexivity]). subst r. clear R.
            destruct r0 as [x|o args]; cbn [rcl set_alts k_done].
            ++ pose proof (Hr _ R0) as X. cbn [rcl] in X. rewrite Ed in X. exact X.
            ++ left. unfold okres. cbn [set_alts k_elim k_done k_alts]. right. split.
@@ -695,7 +695,7 @@ Proof.
             split; [constructor; [apply G2; exact Hm|constructor]|split; [reflexivity|]].
             intros x [<-|[]]. apply I2. exact Hm.
           - intros r R. cbn [set_alts k_ref] in R.
-            rewrite (Rr _ (fun y => eq_refl) r0 r R00 R). clear R r.
+            assert (Er : r = r0) by (eapply Rr; cycle 1; [exact R00|exact R|intros y; reflexivity]). subst r. clear R.
             destruct r0 as [x|o args]; cbn [rcl set_alts k_done].
             + unfold okvar. cbn [set_alts k_elim]. exact Logic.I.
             + left. unfold okres. cbn [set_alts k_elim k_done]. left. reflexivity. }
@@ -703,9 +703,12 @@ Proof.
         { rewrite <- Ef. apply follow_sct; auto.
           pose proof (scts_of_constr I Lc) as F. inversion F; assumption. }
         assert (I3 : inv s3).
-        { apply inv_set_constr; auto; [cbn; discriminate|].
-          unfold constr_terms. cbn [set_alts k_ref k_alts]. constructor; [exact Sr0|constructor; [apply sct_O0|constructor]]. }
-        pose proof (U D (minus pend c) r0 (ob m) s3 I3 K3 Sr0 (sct_O0 _ _ _)) as O3. unfold ok in O3.
+        { apply inv_set_constr.
+          - exact I.
+          - cbn. discriminate.
+          - unfold constr_terms. cbn [set_alts k_ref k_alts].
+            constructor; [exact Sr0|constructor; [apply sct_O0|constructor]]. }
+        pose proof (U D (minus pend c) r0 (ob m) s3 I3 K3 Sr0 (@sct_O0 true s3 m)) as O3. unfold ok in O3.
         rewrite Eu in O3. destruct O3 as (I' & E' & K'). split; [exact K'|].
         intros X. rewrite <- Eb. exact X.
   - (* subtype constraint *)
@@ -713,12 +716,12 @@ Proof.
     assert (Pk : pureK H k).
     { split; [exact Ee|]. intros t Et. rewrite Ea in Et. inversion Et; subst. eauto. }
     rewrite (fulfill_pure H (S f) c s Pk) in E. fold k in E.
-    destruct (pfc H (S f) s k) eqn:Ep; [discriminate| |]; inversion E; subst; clear E.
+    destruct (pfc H (S f) s k) eqn:Ep; [discriminate| |]; injection E as <- <-.
     + split; [|intros _; unfold markd; rewrite constr_of_set_constr_same by exact Lc; reflexivity].
       unfold markd. apply Kp_upd; auto. fold k. split.
       * unfold shp. cbn [done_of k_elim k_alts]. eauto.
       * intros r R. cbn [done_of k_ref] in R.
-        rewrite (Rr _ (fun y => eq_refl) (k_ref k) r R0 R). clear R r.
+        assert (Er : r = r0) by (eapply Rr; cycle 1; [exact R0|exact R|intros y; reflexivity]). subst r. clear R.
         destruct r0 as [x|o args]; cbn [rcl done_of k_done].
         -- unfold okvar. cbn [done_of k_elim k_alts k_strict]. exists a. split; [exact Ea|].
            eapply (pfc_done_var H W); eauto.
@@ -749,5 +752,329 @@ Lemma unifyK f : spec_unifyK f. Proof. apply specsK_all. Qed.
 Lemma bindK f : spec_bindK f. Proof. apply specsK_all. Qed.
 Lemma fixK f : spec_fixK f. Proof. apply specsK_all. Qed.
 Lemma fulfillK f : spec_fulfillK f. Proof. apply specsK_all. Qed.
+
+
+(* ================================================================== *)
+(* allocation, new constraints, instance, apply, programs               *)
+(* ================================================================== *)
+Local Notation len s := (length (vars s)).
+Local Notation tg := (Sound.tg H).
+Local Notation JE := (SoundElimS.JE H).
+Local Notation lefE := (SoundElimS.lefE H).
+Local Notation goodE := (SoundElimS.goodE H).
+
+Lemma tg_tsc n : forall t, tg n t -> tsc n t.
+Proof.
+  induction t as [v|o args IH] using tyv_ind'; intros Ht; inversion Ht; subst; constructor; auto.
+  rewrite Forall_forall in *. auto.
+Qed.
+
+Lemma tg_sct s t : tg (len s) t -> sct true s t.
+Proof. intros Ht _. apply tg_tsc. exact Ht. Qed.
+
+Lemma tgs_scts s l : Forall (tg (len s)) l -> Forall (sct true s) l.
+Proof. apply Forall_impl. intros t. apply tg_sct. Qed.
+
+Lemma Kp_alloc_var D pend s w : inv s -> Kp D pend s -> Kp D pend (snd (alloc_var s w)).
+Proof.
+  intros I. apply Kp_eq; auto.
+  - intros y. apply alloc_var_bound.
+  - intros u Lu _. rewrite alloc_var_cs_old by exact Lu. intros x Hx. rewrite alloc_var_cset. exact Hx.
+Qed.
+
+Lemma fresh_listK D pend n : forall s, inv s -> Kp D pend s ->
+  ok true s (fresh_list n) (fun fr s1 => Kp D pend s1) s.
+Proof.
+  induction n as [|n IH]; intros s I Kk; cbn [fresh_list].
+  - apply ok_ret; auto using ext_refl.
+  - apply ok_fresh; auto using ext_refl. intros s1 Es1 I1 E1 _.
+    assert (K1 : Kp D pend s1) by (subst s1; apply Kp_alloc_var; auto).
+    eapply ok_bind; [apply ok_use; [exact E1|apply IH; auto]|].
+    intros r s2 I2 E2 (K2 & E12). apply ok_ret; auto.
+Qed.
+
+Lemma eval_styK D pend env : forall t s, inv s -> Kp D pend s -> Forall (sct true s) env -> sty_wf (length env) t ->
+  ok true s (eval_sty env t) (fun r s1 => Kp D pend s1 /\ sct true s1 r) s.
+Proof.
+  induction t as [i| |o args IH] using sty_ind'; intros s I Kk Se Wf; cbn [eval_sty].
+  - apply ok_gets_end; auto using ext_refl. split; [exact Kk|]. apply follow_sct; auto.
+    inversion Wf; subst. rewrite Forall_forall in Se. apply Se; auto. apply nth_In. auto.
+  - apply ok_fresh; auto using ext_refl. intros s1 Es1 I1 E1 _. apply ok_ret; auto. split.
+    + subst s1. apply Kp_alloc_var; auto.
+    + apply scv_V. intros _. subst s1. rewrite alloc_var_length. lia.
+  - eapply ok_bind with (Q1 := fun xs s1 => Kp D pend s1 /\ Forall (sct true s1) xs);
+      [|intros xs s1 I1 E1 (K1 & Sx); apply ok_ret; auto using sct_O].
+    assert (Wa : Forall (sty_wf (length env)) args) by (inversion Wf; auto).
+    clear Wf. revert s I Kk Se. induction IH as [|a r Ha Hr IHr]; intros s I Kk Se; [apply ok_ret; auto using ext_refl|].
+    inversion Wa as [|? ? Wa1 Wr]; subst.
+    eapply ok_bind; [apply Ha; auto|].
+    intros x s1 I1 E1 (K1 & Sx).
+    assert (Se1 : Forall (sct true s1) env) by (eapply scts_ext; eauto).
+    eapply ok_bind with (Q1 := fun xs s2 => (Kp D pend s2 /\ Forall (sct true s2) xs) /\ ext s1 s2).
+    + apply ok_use; [exact E1|]. apply IHr; auto.
+    + intros xs s2 I2 E2 ((K2 & Sxs) & E12). apply ok_ret; auto. split; [exact K2|].
+      constructor; auto. eapply sct_ext; eauto.
+Qed.
+
+(* the declared alternatives of a schema constraint *)
+Definition sop (t : sty) : nat := match t with SOp a _ => a | _ => 0 end.
+Definition decl (sc : sconstr) : list nat :=
+  match sc with SCSub _ t _ => [sop t] | SCElim _ alts => map sop alts end.
+
+Lemma map_sop_sb l : map sop (map FL.sb l) = l.
+Proof. rewrite map_map. cbn. apply map_id. Qed.
+
+Lemma cst_ext_D D dk s pend c k : c < length D -> cst D s pend c k -> cst (D ++ [dk]) s pend c k.
+Proof.
+  intros Lc (Sh & Hr). split; [|exact Hr]. unfold shp in *. rewrite app_nth1 by exact Lc. exact Sh.
+Qed.
+
+Lemma new_constraintK fuel D dk k s : inv s -> Kp D none s -> length D = length (constrs s) ->
+  shp (D ++ [dk]) (length (constrs s)) k -> k_done k = false ->
+  (k_elim k = false -> length (k_alts k) = 1) -> Forall (sct true s) (constr_terms k) ->
+  ok true s (new_constraint H fuel k) (fun _ s' => Kp (D ++ [dk]) none s') s.
+Proof.
+  intros I Kk LD Sh Dk Ar Sk. unfold new_constraint.
+  apply ok_alloc_constr; auto using ext_refl. intros s1 Es1 I1 E1 _.
+  set (c := length (constrs s)) in *.
+  assert (Lc : c < length (constrs s1)) by (subst s1; rewrite alloc_constr_length; unfold c; lia).
+  assert (N1 : length (constrs s1) = S c) by (subst s1; rewrite alloc_constr_length; reflexivity).
+  assert (Ck1 : constr_of s1 c = k) by (subst s1; apply alloc_constr_new).
+  assert (Old1 : forall c', c' < c -> constr_of s1 c' = constr_of s c') by (intros c' L; subst s1; apply alloc_constr_old; exact L).
+  assert (Ev1 : vars s1 = vars s) by (subst s1; reflexivity).
+  assert (Ec1 : csets s1 = csets s) by (subst s1; reflexivity).
+  clear Es1.
+  apply ok_lift; auto; [intros e; apply closure_f_err|]. intros vs Hvs.
+  pose proof Hvs as Hvs0. apply closure_f_unbound in Hvs; auto; [|apply I1].
+  eapply ok_bind with (Q1 := fun _ s2 =>
+      ((forall w, c_bound (cell_of s2 w) = c_bound (cell_of s1 w)) /\ ext s1 s2) /\
+      (vars s2 = vars s1 /\ constrs s2 = constrs s1 /\ (forall j, incl (cset_of s1 j) (cset_of s2 j)) /\
+       forall v, In v vs -> c_cs (cell_of s1 v) < length (csets s1) -> In c (cset_of s2 (c_cs (cell_of s2 v))))).
+  - match goal with |- ok _ _ (forM _ ?f) _ _ => change f with (inform c) end.
+    apply ok_and; [|intros u s2 E2; exact (inform_facts c vs s1 u s2 E2)].
+    unfold inform.
+    apply ok_forM with (J := fun s2 => (forall w, c_bound (cell_of s2 w) = c_bound (cell_of s1 w)) /\ ext s1 s2);
+      auto using ext_refl.
+    intros v s2 Hv I2 E2 (B2 & E12). apply ok_gets.
+    rewrite B2. rewrite Forall_forall in Hvs. rewrite (Hvs v Hv).
+    apply ok_modify_end.
+    + apply inv_set_cset; auto. apply Forall_ins; [|apply (inv_cs_Forall _ I2)].
+      pose proof (ext_constrs E12). lia.
+    + eapply ext_trans; [exact E2|apply ext_set_cset].
+    + split; [exact B2|]. eapply ext_trans; [exact E12|apply ext_set_cset].
+  - intros u s2 I2 E2 ((B2 & E12) & (Ev2 & Ek2 & Ec2 & Hin)).
+    assert (Lc2 : c < length (constrs s2)) by (rewrite Ek2; exact Lc).
+    assert (Ecell : forall y, cell_of s2 y = cell_of s y).
+    { intros y. unfold cell_of. rewrite Ev2, Ev1. reflexivity. }
+    assert (K2 : Kp (D ++ [dk]) (fun x => x = c) s2).
+    { intros c' Lc'. rewrite Ek2, N1 in Lc'. unfold constr_of at 1. rewrite Ek2. fold (constr_of s1 c').
+      destruct (Nat.eq_dec c' c) as [->|Nc].
+      - rewrite Ck1. split; [exact Sh|]. intros r R.
+        assert (R1 : rsv s1 (k_ref k) r).
+        { eapply rsv_bound_eq; [|exact R]. intros y. symmetry. apply B2. }
+        destruct r as [x|o args]; cbn [rcl].
+        + rewrite Dk. apply Hin.
+          * eapply closure_has; [exact Hvs0|]. apply rsv_follow. exact R1.
+          * assert (Lx : x < length (vars s)).
+            { assert (Ts : tsc (length (vars s)) (V x)).
+              { eapply (rsv_tsc s); [apply (proj2 I eq_refl)|reflexivity| |].
+                - eapply rsv_bound_eq; [|exact R1]. intros y. unfold cell_of. rewrite Ev1. reflexivity.
+                - inversion Sk as [|? ? Sr _]; subst. apply Sr. reflexivity. }
+              inversion Ts; assumption. }
+            unfold cell_of, cset_of. rewrite Ev1, Ec1. apply (sc_cs (proj2 I eq_refl)). exact Lx.
+        + right. split; [exact Dk|reflexivity].
+      - assert (L : c' < c) by lia. rewrite (Old1 c' L).
+        apply cst_ext_D; [rewrite LD; exact L|].
+        eapply cst_transfer; [| | |apply Kk; exact L].
+        + intros y. rewrite Ecell. reflexivity.
+        + intros x _ _ Hx. rewrite Ecell. apply Ec2. unfold cset_of. rewrite Ec1. exact Hx.
+        + intros []. }
+    eapply ok_bind with (Q1 := fun _ s3 => Kp (D ++ [dk]) none s3); [|intros d s3 I3 E3 K3; done_ret].
+    eapply ok_conseq; [apply ok_use; [exact E2|apply (fulfillK fuel (D ++ [dk]) (fun x => x = c) c s2 I2 K2 Lc2)]|].
+    cbv beta. intros d s3 _ _ ((K3 & _) & _). eapply Kp_mono; [|exact K3]. intros x (-> & Ne). congruence.
+Qed.
+
+
+Lemma eval_constrK fuel D env sc s : inv s -> JE s -> Kp D none s -> length D = length (constrs s) ->
+  Forall (tg (len s)) env -> pscE H (length env) sc ->
+  ok true s (eval_constr H fuel env sc)
+     (fun _ s' => Kp (D ++ [decl sc]) none s' /\ JE s' /\ lefE s s' /\
+                  length (constrs s') = S (length (constrs s))) s.
+Proof.
+  intros I J0 Kk LD Fe Pc.
+  eapply ok_conseq;
+    [apply ok_and; [|intros u s' E; exact (eval_constr_goodE H W fuel env sc s J0 Fe Pc u s' E)]
+    |cbv beta; intros u s' _ _ (X & Y); exact (conj X Y)].
+  assert (Sn : forall i, i < length env -> sct true s (follow s (follow s (nth i env (V 0))))).
+  { intros i Li. apply follow_sct; auto. apply follow_sct; auto. apply tg_sct.
+    rewrite Forall_forall in Fe. apply Fe. apply nth_In. exact Li. }
+  destruct Pc as [Pc|Pc].
+  - destruct sc as [r t strict|r alts]; cbn [psc] in Pc; [|tauto].
+    destruct r as [i| |]; try tauto. destruct t as [| |a [|x xs]]; try tauto. destruct Pc as (Li & Va).
+    unfold ok. rewrite SoundElimS.eval_constr_sub. cbn [decl sop]. apply new_constraintK; auto.
+    + unfold shp. cbn [sub_constr k_elim k_alts]. exists a. split; [reflexivity|apply Lub.basic_iff; exact Va].
+    + unfold constr_terms. cbn [sub_constr k_ref k_alts].
+      constructor; [apply Sn; exact Li|constructor; [apply sct_O0|constructor]].
+  - destruct sc as [r t strict|r alts]; cbn [pec] in Pc; [tauto|].
+    destruct r as [i| |]; try tauto. destruct Pc as (Li & l & Gl & ->).
+    unfold ok. rewrite SoundElimS.eval_constr_elimE. cbn [decl]. rewrite map_sop_sb. apply new_constraintK; auto.
+    + unfold shp. cbn [elim_constr k_elim k_alts]. exists l. split; [exact Gl|split; [reflexivity|]].
+      rewrite app_nth2 by lia. rewrite LD, Nat.sub_diag. apply incl_refl.
+    + cbn. discriminate.
+    + unfold constr_terms. cbn [elim_constr k_ref k_alts]. constructor; [apply Sn; exact Li|].
+      rewrite Forall_forall. intros x Hx. apply in_map_iff in Hx. destruct Hx as (m & <- & _). apply sct_O0.
+Qed.
+
+Lemma constrsK fuel env : forall cs D s, inv s -> JE s -> Kp D none s -> length D = length (constrs s) ->
+  Forall (tg (len s)) env -> Forall (pscE H (length env)) cs ->
+  ok true s (forM cs (eval_constr H fuel env))
+     (fun _ s' => Kp (D ++ map decl cs) none s' /\ JE s' /\ lefE s s' /\
+                  length (constrs s') = length (constrs s) + length cs) s.
+Proof.
+  induction cs as [|c cs IH]; intros D s I J0 Kk LD Fe Fc; cbn [forM map].
+  - apply ok_ret; auto using ext_refl. rewrite app_nil_r.
+    split; [exact Kk|split; [exact J0|split; [apply lefE_refl|cbn; lia]]].
+  - inversion Fc as [|? ? Pc Fc']; subst.
+    eapply ok_bind; [apply eval_constrK; eauto|].
+    intros u s1 I1 E1 (K1 & J1 & L1 & N1).
+    eapply ok_conseq; [apply ok_use; [exact E1|apply (IH (D ++ [decl c]) s1); auto]|].
+    + rewrite app_length. cbn. lia.
+    + eapply Forall_tg_mono; [apply (lefE_len H _ _ L1)|exact Fe].
+    + cbv beta. intros u' s2 _ _ ((K2 & J2 & L2 & N2) & _). rewrite <- app_assoc in K2.
+      split; [exact K2|split; [exact J2|split; [eapply lefE_trans; eauto|cbn; lia]]].
+Qed.
+
+Lemma instanceK fuel D sc s : inv s -> JE s -> Kp D none s -> length D = length (constrs s) ->
+  styg H (s_n sc) (s_body sc) -> Forall (pscE H (s_n sc)) (s_constrs sc) ->
+  ok true s (instance H fuel sc)
+     (fun r s' => Kp (D ++ map decl (s_constrs sc)) none s' /\ JE s' /\ tg (len s') r /\
+                  length (constrs s') = length (constrs s) + length (s_constrs sc)) s.
+Proof.
+  intros I J0 Kk LD Sb Pc.
+  eapply ok_conseq; [apply ok_and; [|intros r s' E; exact (instance_goodE H W fuel sc s J0 Sb Pc r s' E)]|].
+  2:{ cbv beta. intros r s' _ _ (K' & (J' & _ & T' & N')).
+      split; [exact K'|split; [exact J'|split; [exact T'|exact N']]]. }
+  unfold instance.
+  eapply ok_bind.
+  { apply ok_and; [apply (fresh_listK D none (s_n sc) s I Kk)
+                  |intros env s1 E; exact (fresh_list_goodE H (s_n sc) s J0 env s1 E)]. }
+  intros env s1 I1 E1 (K1 & (J1 & L1 & Fe & Ne & Ek1)).
+  assert (Fe1 : Forall (tg (len s1)) env) by (eapply Forall_impl; [|exact Fe]; intros t; apply isvar_tg).
+  assert (Sb' : styg H (length env) (s_body sc)) by (rewrite Ne; exact Sb).
+  eapply ok_bind.
+  { apply ok_use; [exact E1|].
+    apply ok_and; [apply (eval_styK D none env (s_body sc) s1 I1 K1)
+                  |intros b s2 E; exact (eval_sty_goodE H env (s_body sc) s1 J1 Fe1 Sb' b s2 E)].
+    - apply tgs_scts. exact Fe1.
+    - apply (styg_wf H). exact Sb'. }
+  intros body s2 I2 E2 (((K2 & Sbd) & (J2 & L2 & Tb & Ek2)) & E12).
+  eapply ok_bind.
+  { apply ok_use; [exact E2|]. apply (constrsK fuel env (s_constrs sc) D s2); auto.
+    - congruence.
+    - eapply Forall_tg_mono; [apply (lefE_len H _ _ L2)|exact Fe1].
+    - rewrite Ne. exact Pc. }
+  intros u s3 I3 E3 ((K3 & J3 & L3 & N3) & E23).
+  eapply ok_conseq; [apply ok_use; [exact E3|apply (fixK fuel _ none true body s3 I3 K3)]|].
+  - apply tg_sct. eapply tg_mono; [apply (lefE_len H _ _ L3)|exact Tb].
+  - cbv beta. intros r s4 _ _ ((K4 & _) & _). exact K4.
+Qed.
+
+Lemma applyK fuel D f0 x0 fixb s : inv s -> Kp D none s -> sct true s f0 -> sct true s x0 ->
+  ok true s (apply H fuel f0 x0 fixb) (fun r s1 => Kp D none s1 /\ sct true s1 r) s.
+Proof.
+  intros I Kk Sf0 Sx0. unfold apply. apply ok_gets. apply ok_gets.
+  pose proof (follow_unbound f0 I) as Nf.
+  pose proof (follow_sct I Sf0) as Sf. pose proof (follow_sct I Sx0) as Sx.
+  eapply ok_bind with (Q1 := fun f' s1 => Kp D none s1 /\ sct true s1 f').
+  - destruct (follow s f0) as [vf|o args]; [|apply ok_ret; auto using ext_refl].
+    apply ok_fresh; auto using ext_refl. intros s1 Es1 I1 E1 _.
+    assert (K1 : Kp D none s1) by (subst s1; apply Kp_alloc_var; auto).
+    apply ok_fresh; auto. intros s2 Es2 I2 E2 E12.
+    assert (K2 : Kp D none s2) by (subst s2; apply Kp_alloc_var; auto).
+    eapply ok_bind with (Q1 := KQ D none).
+    + useK (bindK fuel D none).
+      5:{ intros Bt. right. pose proof (sct_V Sf Bt) as Lvf.
+          apply nocc_op. intros x [<-|[<-|[]]];
+            (apply nocc_unb; [|subst s2 s1; rewrite !alloc_var_bound; rewrite cell_of_oob; [reflexivity|]]);
+            try (subst s1; rewrite alloc_var_length); try rewrite alloc_var_length; lia. }
+      * subst s2 s1. rewrite !alloc_var_bound. exact Nf.
+      * exact Logic.I.
+      * apply sct_V. eapply sct_ext; [exact E2|exact Sf].
+      * apply sct_O. constructor; [|constructor; [|constructor]]; apply scv_V; intros _.
+        -- pose proof (ext_vars E12) as L. subst s1. rewrite alloc_var_length in L. lia.
+        -- subst s2. rewrite alloc_var_length. lia.
+    + intros u s3 I3 E3 K3. apply ok_gets_end; auto. split; [exact K3|].
+      apply follow_sct; auto. eapply sct_ext; eauto.
+  - intros f' s1 I1 E1 (K1 & Sf').
+    destruct f' as [v|o [|lft [|rgt [|z r]]]]; try done_fail; break_if; try done_fail;
+      try (apply ok_ret; auto using sct_O0; fail).
+    + apply sct_args in Sf'. inversion Sf' as [|? ? Sl Sr']; subst. inversion Sr' as [|? ? Sr _]; subst.
+      assert (Sx1 : sct true s1 (follow s x0)) by (eapply sct_ext; eauto).
+      eapply ok_bind with (Q1 := fun _ s2 => Kp D none s2 /\ ext s1 s2).
+      { eapply ok_conseq; [apply ok_use; [exact E1|apply (unifyK fuel D none); auto]|]. cbv beta. auto. }
+      intros u s2 I2 E2 (K2 & E12).
+      assert (Sr2 : sct true s2 rgt) by (eapply sct_ext; eauto).
+      eapply ok_conseq; [apply ok_use; [exact E2|apply (fixK fuel D none); auto]|].
+      cbv beta. intros r s4 _ _ ((K4 & _ & Sr4) & _). auto.
+    + apply sct_args in Sf'. inversion Sf' as [|? ? Sl Sr']; subst. inversion Sr' as [|? ? Sr _]; subst.
+      assert (Sx1 : sct true s1 (follow s x0)) by (eapply sct_ext; eauto).
+      eapply ok_bind with (Q1 := fun _ s2 => Kp D none s2 /\ ext s1 s2).
+      { eapply ok_conseq; [apply ok_use; [exact E1|apply (unifyK fuel D none); auto]|]. cbv beta. auto. }
+      intros u s2 I2 E2 (K2 & E12). apply ok_ret; auto. split; [exact K2|]. eapply sct_ext; eauto.
+Qed.
+
+Definition decls_cmd (c : cmd) : list (list nat) :=
+  match c with CInst sc => map decl (s_constrs sc) | _ => [] end.
+Fixpoint decls (cs : list cmd) : list (list nat) :=
+  match cs with [] => [] | c :: r => decls_cmd c ++ decls r end.
+
+Lemma run_cmdK fuel D c vals s : inv s -> JE s -> Kp D none s -> length D = length (constrs s) ->
+  Forall (tg (len s)) vals -> cmdE H (length vals) c ->
+  ok true s (run_cmd H fuel c vals)
+     (fun vals' s' => Kp (D ++ decls_cmd c) none s' /\ JE s' /\
+                      length (D ++ decls_cmd c) = length (constrs s') /\
+                      Forall (tg (len s')) vals' /\ length vals' = S (length vals)) s.
+Proof.
+  intros I J0 Kk LD Fv Pc.
+  eapply ok_conseq;
+    [apply ok_and; [|intros v' s' E; exact (run_cmd_goodE H W fuel c vals s J0 Fv Pc v' s' E)]|].
+  2:{ cbv beta. intros v' s' _ _ (K' & (t & Ev & Tt & J' & L' & N' & _)).
+      split; [exact K'|]. subst v'. split; [exact J'|split; [|split]].
+      - rewrite app_length, LD, N'. f_equal. destruct c; cbn [decls_cmd ncon]; try reflexivity. apply map_length.
+      - apply Forall_app. split; [eapply Forall_tg_mono; [apply (lefE_len H _ _ L')|exact Fv]|constructor; auto].
+      - rewrite app_length. cbn. lia. }
+  destruct Pc as [sc Sb Pcs|f x b Lf Lx]; cbn [run_cmd decls_cmd].
+  - eapply ok_bind; [apply instanceK; eauto|]. intros t s1 I1 E1 (K1 & _). apply ok_ret; auto.
+  - rewrite app_nil_r.
+    eapply ok_bind; [apply (applyK fuel D); auto; apply tg_sct; apply tg_val; auto|].
+    intros t s1 I1 E1 (K1 & _). apply ok_ret; auto.
+Qed.
+
+Theorem run_cmdsK fuel : forall cs i vals D s vals' s', inv s -> JE s -> Kp D none s ->
+  length D = length (constrs s) -> Forall (tg (len s)) vals ->
+  progE H (length vals) cs -> run_cmds H fuel cs i vals s = (None, vals', s') ->
+  inv s' /\ Kp (D ++ decls cs) none s'.
+Proof.
+  induction cs as [|c cs IH]; intros i vals D s vals' s' I J0 Kk LD Fv P R; cbn [run_cmds decls] in *.
+  - inversion R; subst. rewrite app_nil_r. auto.
+  - destruct P as [Pc Pr].
+    pose proof (run_cmdK fuel D c vals s I J0 Kk LD Fv Pc) as O. unfold ok in O.
+    destruct (run_cmd H fuel c vals s) as [vals1 s1|e s1]; [|discriminate].
+    destruct O as (I1 & E1 & K1 & J1 & LD1 & Fv1 & L1).
+    rewrite app_assoc.
+    eapply (IH (S i) vals1 (D ++ decls_cmd c) s1); eauto. rewrite L1. exact Pr.
+Qed.
+
+Lemma Kp_empty D sc : Kp D none (empty_store sc).
+Proof. intros c Lc. cbn in Lc. lia. Qed.
+
+Theorem elimK_final fuel sc prog vals s : progE H 0 prog ->
+  run_cmds H fuel prog 0 [] (empty_store sc) = (None, vals, s) ->
+  inv s /\ Kp (decls prog) none s.
+Proof.
+  intros P R.
+  apply (run_cmdsK fuel prog 0 [] [] (empty_store sc) vals s (inv_empty true sc) (JE_empty H sc)
+           (Kp_empty [] sc) eq_refl (Forall_nil _) P R).
+Qed.
 
 End KE.
